@@ -54,10 +54,12 @@ structure St where
   /-- the transaction has written since the last commit / rollback (SQLite write lock) -/
   lock : Bool
   obsolete : Bool
+  /-- `_updatedCache`: rows written through `Transaction._SO_update` since the last commit / rollback / close -/
+  updLog : List Key
   p : Conn
   t : Conn
 
-def init : St := ⟨fun _ => none, fun _ => none, false, false, ⟨fun _ => Inst.blank, 0⟩, ⟨fun _ => Inst.blank, 0⟩⟩
+def init : St := ⟨fun _ => none, fun _ => none, false, false, [], ⟨fun _ => Inst.blank, 0⟩, ⟨fun _ => Inst.blank, 0⟩⟩
 
 def St.conn (s : St) : Side → Conn
   | .P => s.p
@@ -128,8 +130,9 @@ def opSync (s : St) (sd : Side) (j : Nat) : St × Out :=
               txv := upd s.txv (s.p.insts j).key ((s.db (s.p.insts j).key).map fun r => overlay r (s.p.insts j).pending),
               p := s.p.modify j fun i => { i with pending := fun _ => none } }, .ok)
   | .T =>
-    if s.obsolete then (s, .assert) else
-    ({ s with lock := true,
+    -- `Transaction._SO_update` logs the row first, then the UPDATE goes through `assertActive`
+    if s.obsolete then ({ s with updLog := (s.t.insts j).key :: s.updLog }, .assert) else
+    ({ s with lock := true, updLog := (s.t.insts j).key :: s.updLog,
               txv := upd s.txv (s.t.insts j).key ((s.txv (s.t.insts j).key).map fun r => overlay r (s.t.insts j).pending),
               t := s.t.modify j fun i => { i with pending := fun _ => none } }, .ok)
 
@@ -155,18 +158,18 @@ def opExpire (s : St) (sd : Side) (j : Nat) : St × Out :=
       else (s.conn sd).insts x, (s.conn sd).n⟩, .ok)
 
 /-- the transaction cache reaches row `k` -/
-def St.reached (s : St) (k : Key) : Bool := (s.t.find k).isSome
+def St.reached (s : St) (k : Key) : Bool := (s.t.find k).isSome || s.updLog.contains k
 
 def opCommit (s : St) (close : Bool) : St × Out :=
   if s.obsolete then (s, .ok) else
-  ({ s with db := s.txv, lock := false, obsolete := close,
+  ({ s with db := s.txv, lock := false, obsolete := close, updLog := [],
             p := ⟨fun j =>
               if (s.reached (s.p.insts j).key && (s.p.find (s.p.insts j).key == some j)) = true then (s.p.insts j).expire
               else s.p.insts j, s.p.n⟩ }, .ok)
 
 def opRollback (s : St) : St × Out :=
   if s.obsolete then (s, .ok) else
-  ({ s with txv := s.db, lock := false, obsolete := true,
+  ({ s with txv := s.db, lock := false, obsolete := true, updLog := [],
             t := ⟨fun j =>
               if (s.t.find (s.t.insts j).key == some j) = true then (s.t.insts j).expire else s.t.insts j, s.t.n⟩ }, .ok)
 
